@@ -146,7 +146,7 @@ func main() {
 		hit := false
 		for _, d := range divs {
 			fmt.Printf("DIVERGENCE property=%s [%s] %s\n", d.Prop, d.Sig, d.Detail)
-			if d.Prop == rf.Property && d.Sig == rf.Sig {
+			if (d.Prop == rf.Property && d.Sig == rf.Sig) || d.Sig+" (unbuilt-state)" == rf.Sig {
 				hit = true
 			}
 		}
